@@ -1,1 +1,275 @@
-/-! Property theorems for C03 — placeholder until the property's model is built. -/
+import FcpptProofs.C03.Parse
+import FcpptProofs.C03.NextArg
+import FcpptProofs.C03.Construct
+import FcpptProofs.C03.Term
+import FcpptProofs.C03.Help
+/-!
+# C03 — property theorems (see notes/C03.md for the clause-by-clause coverage)
+
+`parse f p st c` is the model of `Parser::parse(state, context)`; `f` is fuel (`PErr.diverge` = does not
+terminate), an argument is *(original index, text)* and the third component of a success is the consumption
+log *(index ↦ label of the leaf that took it)*.  All statements hold for every parser `p : OP`, every state /
+argument vector, every context and every fuel.
+-/
+namespace Fcppt.C03
+
+/-! ## accounting: nothing dropped, nothing used twice, order preserved -/
+
+/-- every successful `Parser::parse` leaves a sublist of its input state (relative order preserved) -/
+theorem parse_state_sublist {f : Nat} {p : OP} {st : List Arg} {c : Ctx} {st' : List Arg} {r : Rec} {lg : Log}
+    (h : parse f p st c = .ok (st', r, lg)) : st'.Sublist st := (parse_acc f p st c h).sub
+
+/-- remaining arguments and logged (consumed) arguments partition the input state: state' = state minus log -/
+theorem parse_log_partition {f : Nat} {p : OP} {st : List Arg} {c : Ctx} {st' : List Arg} {r : Rec} {lg : Log}
+    (h : parse f p st c = .ok (st', r, lg)) : (st'.map Prod.fst ++ lg.map Prod.fst).Perm (st.map Prod.fst) :=
+  (parse_acc f p st c h).perm
+
+private theorem idx_index (args : List String) : (index args).map Prod.fst = List.range args.length := by
+  unfold index
+  rw [List.map_fst_zip]
+  simp
+
+/-- **`fcppt::options::parse` succeeded ⇒ the consumption log is a permutation of all argument indices.** -/
+theorem parse_accounts_all {f : Nat} {p : OP} {args : List String} {r : Rec} {lg : Log}
+    (h : parseTop f p args = .ok (r, lg)) : (lg.map Prod.fst).Perm (List.range args.length) := by
+  unfold parseTop parseToEmpty at h
+  split at h
+  · cases h
+  · cases h
+  · rename_i st' r' lg' hp
+    split at h
+    · rename_i he
+      injection h with h; injection h with h1 h2; subst h1 h2
+      have := (parse_acc _ _ _ _ hp).perm
+      have hnil : st' = [] := by cases st' <;> simp_all
+      subst hnil
+      simpa [idx, lidx, idx_index] using this
+    · cases h
+
+/-- … i.e. every argument position is consumed by exactly one leaf parser, and nothing else is logged -/
+theorem parse_each_index_exactly_once {f : Nat} {p : OP} {args : List String} {r : Rec} {lg : Log}
+    (h : parseTop f p args = .ok (r, lg)) :
+    (∀ i, i < args.length → (lg.map Prod.fst).count i = 1) ∧ (∀ i ∈ lg.map Prod.fst, i < args.length) ∧
+      lg.length = args.length := by
+  have hp := parse_accounts_all h
+  refine ⟨fun i hi => ?_, fun i hi => ?_, ?_⟩
+  · rw [List.perm_iff_count.mp hp i]
+    have h1 : List.count i (List.range args.length) ≤ 1 := List.nodup_iff_count.mp List.nodup_range i
+    have h2 : 0 < List.count i (List.range args.length) := List.count_pos_iff.mpr (List.mem_range.mpr hi)
+    omega
+  · exact List.mem_range.mp (hp.mem_iff.mp hi)
+  · simpa using hp.length_eq
+
+/-- the same for `parse_help` when it returns a parse result -/
+theorem parseHelp_accounts_all {f : Nat} {hsh : Option String} {hlg : String} {p : OP} {args : List String} {r : Rec}
+    {lg : Log} (h : parseHelp f hsh hlg p args = .ok (.result r lg)) : (lg.map Prod.fst).Perm (List.range args.length) := by
+  unfold parseHelp at h
+  split at h
+  · cases h
+  · cases h
+  · rename_i hh
+    injection h with h; injection h with h1 h2; subst h1 h2
+    exact parse_accounts_all (p := helpSum hsh hlg p) hh
+  · cases h
+
+/-! ## combinators: decision logic stated outright -/
+
+/-- product: left parser first, the right parser continues on the state the left one left; no roll-back -/
+theorem product_left_to_right (f : Nat) (a b : OP) (st : List Arg) (c : Ctx) :
+    parse (f + 1) (.prod a b) st c =
+      match parse f a st c with
+      | .error e => .error e
+      | .ok (st1, r1, lg1) =>
+        match parse f b st1 c with
+        | .error e => .error e
+        | .ok (st2, r2, lg2) => .ok (st2, r1 ++ r2, lg1 ++ lg2) := by
+  cases h1 : parse f a st c with
+  | error e => simp only [parse, h1]
+  | ok t =>
+    obtain ⟨st1, r1, lg1⟩ := t
+    cases h2 : parse f b st1 c with
+    | error e => simp only [parse, h1, h2]
+    | ok t2 => obtain ⟨st2, r2, lg2⟩ := t2; simp only [parse, h1, h2]
+
+/-- sum: if the left parser succeeds, its result is the result (the right parser is not consulted) -/
+theorem sum_first_success {f : Nat} {l : String} {a b : OP} {st : List Arg} {c : Ctx} {st1 : List Arg} {r1 : Rec} {lg1 : Log}
+    (h : parse f a st c = .ok (st1, r1, lg1)) :
+    parse (f + 1) (.sum l a b) st c = .ok (st1, [(l, .left (.recd r1))], lg1) := by
+  simp only [parse, h]
+
+/-- sum: if the left parser fails, the right parser runs on the **original** state (roll-back of whatever the
+left parser had consumed); only the right parser's consumption is logged -/
+theorem sum_rollback {f : Nat} {l : String} {a b : OP} {st : List Arg} {c : Ctx} {e : PErr} {st2 : List Arg} {r2 : Rec} {lg2 : Log}
+    (ha : parse f a st c = .error e) (he : e ≠ .diverge) (hb : parse f b st c = .ok (st2, r2, lg2)) :
+    parse (f + 1) (.sum l a b) st c = .ok (st2, [(l, .right (.recd r2))], lg2) := by
+  cases e with
+  | diverge => exact absurd rfl he
+  | other => simp only [parse, ha, hb]
+  | missing m => simp only [parse, ha, hb]
+
+/-- sum: both fail ⇒ `missing` only if both are `missing` -/
+theorem sum_both_fail {f : Nat} {l : String} {a b : OP} {st : List Arg} {c : Ctx} {e1 e2 : PErr}
+    (ha : parse f a st c = .error e1) (h1 : e1 ≠ .diverge) (hb : parse f b st c = .error e2) :
+    parse (f + 1) (.sum l a b) st c = .error (combineErrors e1 e2) := by
+  cases e1 with
+  | diverge => exact absurd rfl h1
+  | other => simp only [parse, ha, hb]
+  | missing m => simp only [parse, ha, hb]
+
+/-- optional is transactional (after fix 6e48692): an inner `missing` — even one noticed after arguments were
+consumed — gives back the state exactly as it was and logs nothing; `other` errors are not swallowed -/
+theorem optional_missing_vs_other (f : Nat) (q : OP) (st : List Arg) (c : Ctx) :
+    (∀ m, parse f q st c = .error (.missing m) →
+      parse (f + 1) (.optional q) st c = .ok (st, q.labels.map fun l => (l, .none), [])) ∧
+    (parse f q st c = .error .other → parse (f + 1) (.optional q) st c = .error .other) ∧
+    (∀ st' r lg, parse f q st c = .ok (st', r, lg) →
+      parse (f + 1) (.optional q) st c = .ok (st', r.map fun (l, v) => (l, .some v), lg)) := by
+  refine ⟨fun m h => ?_, fun h => ?_, fun st' r lg h => ?_⟩ <;> simp only [parse, h]
+
+/-- the defect repaired by 6e48692, as a regression example: `optional(switch f * argument a)` on `["--f"]`
+keeps `--f` in the state (so that `parse` reports the leftover) instead of dropping it -/
+example : parse 10 (.optional (.prod (OP.switch "a" none "f") (.arg "b" .int))) [(0, "--f")] [] =
+    .ok ([(0, "--f")], [("a", .none), ("b", .none)], []) := by rfl
+
+/-- `many` is transactional (after fix 6e48692): the state it returns is exactly the state on which the inner
+parser reports `missing` — not one from which the failed last attempt has already taken arguments -/
+theorem many_stops_at_missing : ∀ (f : Nat) (q : OP) (st : List Arg) (c : Ctx) {st' : List Arg} {r : Rec} {lg : Log},
+    parse f (.many q) st c = .ok (st', r, lg) → ∃ g m, parse g q st' c = .error (.missing m) := by
+  intro f
+  induction f with
+  | zero => intro q st c st' r lg h; simp [parse] at h
+  | succ f ih =>
+    intro q st c st' r lg h
+    simp only [parse] at h
+    cases hq : parse f q st c with
+    | error e =>
+      cases e with
+      | missing m => simp [hq] at h; obtain ⟨rfl, _, _⟩ := h; exact ⟨f, m, hq⟩
+      | other => simp [hq] at h
+      | diverge => simp [hq] at h
+    | ok t =>
+      obtain ⟨st1, r1, lg1⟩ := t
+      simp only [hq] at h
+      cases hm : parse f (.many q) st1 c with
+      | error e => simp [hm] at h
+      | ok t2 =>
+        obtain ⟨st2, r2, lg2⟩ := t2
+        simp [hm] at h
+        obtain ⟨rfl, _, _⟩ := h
+        exact ih q st1 c hm
+
+/-! ## positional arguments: flags and option values are never taken -/
+
+/-- `next_arg` (as used by `argument` and `commands`) returns a split `x ++ y :: z` of the state **iff** `y` is not
+a flag and everything before it reads, left to right, as flags and *option name, value* pairs of the context:
+`y` is the first positional argument of the documented left-to-right reading. -/
+theorem next_arg_spec (st : List Arg) (c : Ctx) (x z : List Arg) (y : Arg) :
+    splitNext st c = some (x, y, z) ↔ st = x ++ y :: z ∧ skipped c (x.map Prod.snd) = true ∧ isFlag y.2 = none := by
+  constructor
+  · intro h
+    exact ⟨splitNext_eq st c h, (splitNext_sound st c h).1, (splitNext_sound st c h).2⟩
+  · rintro ⟨rfl, h1, h2⟩
+    exact splitNext_complete x y z c h1 h2
+
+/-- a token that starts with a dash (a flag, an option name, `-`, `--`, a negative number) is never positional -/
+theorem flags_never_positional {st : List Arg} {c : Ctx} {x z : List Arg} {y : Arg}
+    (h : splitNext st c = some (x, y, z)) : flagLike y.2 = false := by
+  have := (splitNext_sound st c h).2
+  unfold isFlag at this
+  unfold flagLike
+  cases hl : y.2.toList with
+  | nil => simp
+  | cons ch rest =>
+    simp only [hl] at this
+    by_cases hc : ch = '-'
+    · subst hc
+      cases rest with
+      | nil => simp at this
+      | cons d r => by_cases hd : d = '-' <;> simp [hd] at this
+    · simp [hc]
+
+/-- **an option's value is never taken as a positional argument**: if the tokens before `n` read as complete
+flags / option-value pairs and `n` is an option name of the context, the token right after `n` is not what
+`next_arg` returns -/
+theorem option_value_never_positional {st : List Arg} {c : Ctx} {x0 z : List Arg} {n v : Arg}
+    (hx : skipped c (x0.map Prod.snd) = true) (hn : isOptName c n.2 = true) :
+    splitNext st c ≠ some (x0 ++ [n], v, z) := by
+  intro h
+  have h1 := (splitNext_sound st c h).1
+  have : texts (x0 ++ [n]) = x0.map Prod.snd ++ [n.2] := by simp [texts]
+  rw [this, skipped_append c _ _ hx] at h1
+  simp [skipped, hn] at h1
+
+/-- `argument::parse` consumes exactly what `next_arg` finds -/
+theorem argument_takes_next_arg {f : Nat} {l : String} {ty : VTy} {st : List Arg} {c : Ctx} {st' : List Arg} {r : Rec} {lg : Log}
+    (h : parse (f + 1) (.arg l ty) st c = .ok (st', r, lg)) :
+    ∃ x y z, splitNext st c = some (x, y, z) ∧ st' = x ++ z ∧ lg = [(y.1, l)] ∧ convert ty y.2 = some ((r.map Prod.snd).headD .unit) := by
+  simp only [parse, popArg] at h
+  cases hs : splitNext st c with
+  | none => simp [hs] at h
+  | some t =>
+    obtain ⟨x, y, z⟩ := t
+    simp only [hs, Option.map_some] at h
+    split at h
+    · rename_i v hv
+      simp at h
+      obtain ⟨rfl, rfl, rfl⟩ := h
+      exact ⟨x, y, z, rfl, rfl, rfl, by simpa using hv⟩
+    · cases h
+
+/-! ## the help wrapper -/
+
+/-- `parse_help` with a long-name-only help switch (`default_help_switch`) answers with the help text **iff** the
+argument vector is exactly `[--<long>]`: the switch "and nothing else" (with anything else the sum's left branch
+leaves a leftover, which `parse_to_empty` reports as an error) -/
+theorem help_only_alone (f : Nat) (hlg : String) (p : OP) (args : List String) :
+    (∃ x, parseHelp (f + 2) none hlg p args = .ok x ∧ (match x with | .help => True | .result .. => False)) ↔
+      args = [flagName hlg false] := parseHelp_help_iff f hlg p args
+
+/-! ## definitions -/
+
+/-- **the constructors accept exactly the well-formed definitions** (short ≠ long, active ≠ inactive for every
+value type, disjoint names in products, distinct sub-command names), everywhere in the tree -/
+theorem construct_ok_iff_wellformed (p : OP) : construct p = .ok () ↔ p.WellFormed := construct_iff p
+
+/-- the defect repaired by 986d19b as a regression example: `flag<L, std::string>` with distinct values constructs -/
+example : construct (.flag "a" none "mode" (.str "yes") (.str "no")) = .ok () := by rfl
+example : construct (.flag "a" none "mode" (.str "same") (.str "same")) = .error .optionsException := by rfl
+example : construct (.prod (OP.switch "a" none "f") (.opt "b" none "f" none .int)) = .error .duplicateNames := by rfl
+
+/-! ## termination -/
+
+/-- **`many` (and everything else) terminates** unless a `many` sits around a parser that can succeed without
+consuming: fuel `(|state| + 1) * size p` is enough, for every state and context -/
+theorem many_terminates {f : Nat} {p : OP} {st : List Arg} {c : Ctx} (hw : p.wfMany = true)
+    (hf : (st.length + 1) * p.size ≤ f) : parse f p st c ≠ .error .diverge := parse_terminates f p st c hw hf
+
+/-- the fuel the driver uses is enough: a `diverge` line of the model for a `wfMany` shape cannot occur -/
+theorem parseTop_terminates {p : OP} {args : List String} (hw : p.wfMany = true) :
+    parseTop (fuelFor p args.length) p args ≠ .error .diverge := by
+  unfold parseTop parseToEmpty
+  have hl : (index args).length = args.length := by simp [index]
+  have := parse_terminates (fuelFor p args.length) p (index args) p.optionNames hw (by rw [hl]; unfold fuelFor; omega)
+  split
+  · rename_i h; exact absurd h this
+  · simp
+  · split <;> simp
+
+/-- every success of a consuming parser takes at least one argument (what makes `many` well-founded) -/
+theorem consuming_shrinks {f : Nat} {p : OP} {st : List Arg} {c : Ctx} {st' : List Arg} {r : Rec} {lg : Log}
+    (hc : p.consuming = true) (h : parse f p st c = .ok (st', r, lg)) : st'.length < st.length := parse_shrinks hc h
+
+/-- the open known finding (`many` around a parser that succeeds without consuming): no fuel is enough -/
+theorem many_diverges_example (f : Nat) : parse f (.many (OP.switch "a" none "f")) [] [] = .error .diverge :=
+  many_switch_diverges f
+
+/-! ## non-vacuity -/
+
+example : parseTop 20 (.prod (.opt "a" none "o" none .int) (.arg "b" .str)) ["x", "--o", "5"] =
+    .ok ([("a", .int 5), ("b", .str "x")], [(1, "a"), (2, "a"), (0, "b")]) := by rfl
+example : (OP.many (.prod (.unitSwitch "a" none "k") (.arg "b" .int))).wfMany = true := by rfl
+example : (OP.commands (.unit "a") [("go", "x", .arg "b" .int)]).WellFormed := by
+  simp [OP.WellFormed, WellFormedSubs]
+example : splitNext [(0, "--o"), (1, "5"), (2, "-v"), (3, "x")] [("o", false)] = some ([(0, "--o"), (1, "5"), (2, "-v")], (3, "x"), []) := by rfl
+
+end Fcppt.C03
